@@ -44,7 +44,14 @@ def local_case(ch, r):
             valid = client
         kw = {k: v for k, v in (('priority_weight', w), ('priority_depends_on', d), ('priority_exclusive', e))
               if v is not None}
-        o = s.call('send_headers', sid, REQ if client else RESP, **kw)
+        hdrs = list(REQ if client else RESP)
+        if ch.chance(80):
+            # a header block at the frame-size limit: the five priority bytes share the first frame with it
+            from hpack import Encoder
+            from .C02 import sized_headers
+            hdrs = sized_headers(ch, Encoder(), hdrs, ch.pick([1, 1, 2]) * 16384 + ch.int(-8, 8))
+            r.labels.add('priority-on-frame-filling-block')
+        o = s.call('send_headers', sid, hdrs, **kw)
     else:
         kw = {k: v for k, v in (('weight', w), ('depends_on', d), ('exclusive', e)) if v is not None}
         o = s.call('prioritize', sid, **kw)
@@ -62,6 +69,9 @@ def local_case(ch, r):
         got = {k: fr[0].f.get(k) for k in want} if len(fr) == 1 else None
         if got != want or (via_headers and not fr[0].has(wire.F_PRIORITY)) or fr[0].stream_id != sid:
             r.violate('C23:emitted-priority-fields-wrong', 'want %r got %r' % (want, o.frames))
+        if any(f.length > 16384 for f in o.frames) or s.out_problems:
+            r.violate('C23:prioritised-request-not-deliverable', repr([(f.name, f.length) for f in o.frames]) +
+                      repr(s.out_problems))
     else:
         if o.ok:
             r.violate('C23:invalid-priority-accepted:%s' % ('server' if not client else
